@@ -27,6 +27,7 @@ package main
 
 import (
 	"fmt"
+	"sort"
 	"go/ast"
 	"go/token"
 	"strconv"
@@ -85,6 +86,11 @@ type g2l struct {
 	t     *g2lTarget
 	opt   map[string]bool
 	pkgs  map[string]bool // imported package names of the file
+	cur      map[string]bool // names declared in the CURRENT block (see shadowOK)
+	curEnd   token.Pos       // end of the current block
+	curRet   bool            // the current block ends with a return statement
+	inLoop   int             // nesting depth of loops around the current statement
+	part     []ast.Stmt      // the statements being translated
 	declared map[string]bool // locals already introduced with `let mut` (Go's := may re-declare them; Lean may not shadow)
 	owned map[string]bool // locals holding a value created in this function (literal, make, var of value type):
 	// only these may be updated in place - anything else may alias memory the caller or another
@@ -616,7 +622,19 @@ func (g *g2l) block(o *g2lOut, ind int, list []ast.Stmt) {
 	for k, v := range g.declared {
 		outer[k] = v
 	}
-	defer func() { g.declared = outer }()
+	oc, oe, orr := g.cur, g.curEnd, g.curRet
+	g.cur = map[string]bool{}
+	if len(list) > 0 {
+		g.curEnd = list[len(list)-1].End()
+		_, g.curRet = list[len(list)-1].(*ast.ReturnStmt)
+	}
+	if oc == nil {
+		// the outermost block of the translated part: parameters / captured variables live in this scope
+		for k := range g.declared {
+			g.cur[k] = true
+		}
+	}
+	defer func() { g.declared, g.cur, g.curEnd, g.curRet = outer, oc, oe, orr }()
 	n := 0
 	for _, s := range list {
 		if g.inert([]ast.Stmt{s}, false) {
@@ -677,6 +695,9 @@ func (g *g2l) assignTo(o *g2lOut, ind int, lhs ast.Expr, rhs string, define bool
 	}
 	switch l := lhs.(type) {
 	case *ast.Ident:
+		if define {
+			g.shadowOK(l)
+		}
 		if define && l.Name != "_" && !g.declared[l.Name] {
 			g.declared[l.Name] = true
 			o.line(ind, "let mut "+g2lIdent(l.Name)+" := "+rhs)
@@ -726,6 +747,22 @@ func g2lOptionCall(e ast.Expr) bool {
 		return false
 	}
 	return true
+}
+
+// shadowOK is called when `x := e` in a nested block re-declares a name of an enclosing block.
+// Go creates a NEW variable there; this translator assigns to the outer one instead, which is the
+// same thing exactly when nothing reads the outer variable afterwards (see g2lRenameShadows).
+func (g *g2l) shadowOK(id *ast.Ident) {
+	if g.cur == nil || g.cur[id.Name] || !g.declared[id.Name] || id.Name == "_" {
+		if g.cur != nil {
+			g.cur[id.Name] = true
+		}
+		return
+	}
+	g.cur[id.Name] = true
+	// g2lRenameShadows has already given a fresh name to every inner variable whose outer namesake is
+	// still used afterwards (or anywhere in an enclosing loop): what is left shadows a dead variable,
+	// and assigning to that one is the same thing
 }
 
 // g2lCreates: the expression creates a fresh value (literal, &literal, make, new)
@@ -900,6 +937,11 @@ func (g *g2l) stmt(o *g2lOut, ind int, s ast.Stmt) {
 				names = append(names, g2lIdent(id.Name))
 			}
 			redecl := false
+			if define {
+				for _, l := range x.Lhs {
+					g.shadowOK(l.(*ast.Ident))
+				}
+			}
 			for _, l := range x.Lhs {
 				if id := l.(*ast.Ident); id.Name != "_" && g.declared[id.Name] {
 					redecl = true
@@ -1120,7 +1162,9 @@ func (g *g2l) rangeStmt(o *g2lOut, ind int, x *ast.RangeStmt) {
 	if rebind != "" {
 		o.line(ind+1, "let mut "+rebind+" := "+v)
 	}
+	g.inLoop++
 	g.block(o, ind+1, x.Body.List)
+	g.inLoop--
 }
 
 // assignsTo reports whether the block assigns to the variable `name` or to one of its fields.
@@ -1198,7 +1242,9 @@ func (g *g2l) forStmt(o *g2lOut, ind int, x *ast.ForStmt) {
 		}
 		return true
 	})
+	g.inLoop++
 	g.block(o, ind+1, x.Body.List)
+	g.inLoop--
 }
 
 func (g *g2l) switchStmt(o *g2lOut, ind int, x *ast.SwitchStmt) {
@@ -1384,6 +1430,13 @@ func g2lTranslate(t *g2lTarget) string {
 	if len(t.outer) > 0 {
 		g2lRenameOuter(t, fd, body)
 	}
+	for fresh, orig := range g2lRenameShadows(fd, body) {
+		// a renamed variable keeps what the configuration says about its name
+		if g.opt[orig] {
+			g.opt[fresh] = true
+		}
+	}
+	g.part = body
 	for _, c := range t.captures {
 		g.owned[c] = true
 		g.declared[c] = true
@@ -1646,4 +1699,94 @@ func g2lRenameOuter(t *g2lTarget, fd *ast.FuncDecl, part []ast.Stmt) {
 	for _, id := range idents {
 		id.Name = ren[id.Name]
 	}
+}
+
+// g2lRenameShadows makes Go's shadowing explicit before translation: a variable B declared inside
+// the part that has the name of ANOTHER variable A declared earlier in the function, while A is
+// still used after B's declaration, gets a fresh name (all of B's occurrences, found through the
+// parser's object resolution). After this pass a name denotes one variable wherever both are live,
+// so translating `x := e` of an already known name as an assignment is exact.
+func g2lRenameShadows(fd *ast.FuncDecl, part []ast.Stmt) map[string]string {
+	renamed := map[string]string{}
+	if len(part) == 0 {
+		return renamed
+	}
+	partPos, partEnd := part[0].Pos(), part[len(part)-1].End()
+	type occ struct {
+		decl token.Pos
+		uses []*ast.Ident
+	}
+	objs := map[*ast.Object]*occ{}
+	byName := map[string][]*ast.Object{}
+	ast.Inspect(fd, func(n ast.Node) bool {
+		id, ok := n.(*ast.Ident)
+		if !ok || id.Obj == nil || id.Obj.Kind != ast.Var {
+			return true
+		}
+		o := objs[id.Obj]
+		if o == nil {
+			o = &occ{decl: id.Obj.Pos()}
+			objs[id.Obj] = o
+			byName[id.Name] = append(byName[id.Name], id.Obj)
+		}
+		o.uses = append(o.uses, id)
+		return true
+	})
+	type span struct{ pos, end token.Pos }
+	var loops []span
+	ast.Inspect(fd, func(n ast.Node) bool {
+		switch x := n.(type) {
+		case *ast.ForStmt:
+			loops = append(loops, span{x.Pos(), x.End()})
+		case *ast.RangeStmt:
+			loops = append(loops, span{x.Pos(), x.End()})
+		}
+		return true
+	})
+	k := 0
+	names := make([]string, 0, len(byName))
+	for name := range byName {
+		names = append(names, name)
+	}
+	sort.Strings(names) // deterministic fresh names
+	for _, name := range names {
+		list := byName[name]
+		if len(list) < 2 {
+			continue
+		}
+		for _, b := range list {
+			ob := objs[b]
+			if ob.decl < partPos || ob.decl > partEnd {
+				continue // declared outside the part
+			}
+			clash := false
+			for _, a := range list {
+				if a == b || objs[a].decl >= ob.decl {
+					continue
+				}
+				for _, u := range objs[a].uses {
+					if u.Pos() > ob.decl {
+						clash = true
+					}
+					// a loop around B's declaration that does not contain A's: A's uses inside it
+					// come "after" B in the next iteration
+					for _, l := range loops {
+						if l.pos <= ob.decl && ob.decl <= l.end && !(l.pos <= objs[a].decl && objs[a].decl <= l.end) &&
+							l.pos <= u.Pos() && u.Pos() <= l.end {
+							clash = true
+						}
+					}
+				}
+			}
+			if clash {
+				k++
+				fresh := fmt.Sprintf("%s_%d", name, k)
+				renamed[fresh] = name
+				for _, u := range ob.uses {
+					u.Name = fresh
+				}
+			}
+		}
+	}
+	return renamed
 }
